@@ -1,0 +1,192 @@
+// Copyright Amazon.com, Inc. or its affiliates. All Rights Reserved.
+// SPDX-License-Identifier: Apache-2.0
+
+//! verification hook driver: transport-parameter / connection-id authentication of a handshake
+//!
+//! Builds a real `SessionContext` around a single path and hands the peer's encoded transport
+//! parameters to `tls::Context::on_one_rtt_keys`, the entry point the TLS provider calls. This runs
+//! `on_server_params` (client endpoint) or `on_client_params` (server endpoint) exactly as a
+//! connection does. dc is disabled (the default of the library).
+//!
+//! Mounted as `crate::space::verif_session` (needs the crate-private `SessionContext`).
+
+use super::{HandshakeStatus, SessionContext};
+use crate::{
+    connection::{self, ConnectionIdMapper, InternalConnectionIdGenerator},
+    endpoint, path,
+};
+use bytes::Bytes;
+use core::time::Duration;
+use s2n_quic_core::{
+    connection::{limits::Limits, InitialId, PeerId},
+    crypto::{
+        key::testing::{HeaderKey, Key},
+        tls::{self, ApplicationParameters},
+    },
+    event::testing::{Publisher, Subscriber},
+    path::mtu,
+    random,
+    recovery::RttEstimator,
+    stateless_reset, transport,
+};
+
+macro_rules! session_config {
+    ($name:ident, $ty:expr) => {
+        #[derive(Debug)]
+        pub struct $name;
+
+        impl endpoint::Config for $name {
+            type CongestionControllerEndpoint =
+                crate::recovery::congestion_controller::testing::mock::Endpoint;
+            type TLSEndpoint = s2n_quic_core::crypto::tls::testing::Endpoint;
+            type PathHandle = s2n_quic_core::path::RemoteAddress;
+            type Connection = connection::Implementation<Self>;
+            type ConnectionLock = std::sync::Mutex<Self::Connection>;
+            type EndpointLimits = crate::verif_hooks::common::Limits;
+            type ConnectionIdFormat = connection::id::testing::Format;
+            type StatelessResetTokenGenerator = stateless_reset::token::testing::Generator;
+            type RandomGenerator = random::testing::Generator;
+            type TokenFormat = s2n_quic_core::token::testing::Format;
+            type ConnectionLimits = Limits;
+            type Mtu = mtu::Config;
+            type StreamManager = crate::stream::DefaultStreamManager;
+            type ConnectionCloseFormatter = s2n_quic_core::connection::close::Development;
+            type EventSubscriber = Subscriber;
+            type PathMigrationValidator = s2n_quic_core::path::migration::allow_all::Validator;
+            type PacketInterceptor = s2n_quic_core::packet::interceptor::Disabled;
+            type DatagramEndpoint = s2n_quic_core::datagram::Disabled;
+            type DcEndpoint = s2n_quic_core::dc::Disabled;
+
+            fn context(&mut self) -> endpoint::Context<'_, Self> {
+                unimplemented!("the verification drivers never build a whole endpoint")
+            }
+
+            const ENDPOINT_TYPE: s2n_quic_core::endpoint::Type = $ty;
+        }
+    };
+}
+
+session_config!(SessionServer, s2n_quic_core::endpoint::Type::Server);
+session_config!(SessionClient, s2n_quic_core::endpoint::Type::Client);
+
+/// What the handshake knows when the peer's transport parameters arrive
+pub struct Handshake<'a> {
+    /// Source Connection ID of a Retry packet the client processed (client endpoint only)
+    pub retry_cid: Option<&'a [u8]>,
+    /// Destination Connection ID of the client's first Initial packet
+    pub initial_cid: &'a [u8],
+    /// the connection id the peer's packets carry as Source Connection ID
+    pub peer_cid: &'a [u8],
+}
+
+fn drive<Config: endpoint::Config<DcEndpoint = s2n_quic_core::dc::Disabled, DatagramEndpoint = s2n_quic_core::datagram::Disabled, ConnectionLimits = Limits, RandomGenerator = random::testing::Generator>>(
+    hs: &Handshake,
+    params: &[u8],
+    congestion_controller: <Config::CongestionControllerEndpoint as s2n_quic_core::recovery::congestion_controller::Endpoint>::CongestionController,
+) -> Result<(), transport::Error>
+where
+    Config::PathHandle: Default,
+    <Config::TLSEndpoint as tls::Endpoint>::Session: s2n_quic_core::crypto::CryptoSuite<
+        OneRttKey = Key,
+        OneRttHeaderKey = HeaderKey,
+    >,
+{
+    let mut random_generator = random::testing::Generator(123);
+    let mut mapper = ConnectionIdMapper::new(&mut random_generator, Config::ENDPOINT_TYPE);
+    let internal_id = InternalConnectionIdGenerator::new().generate_id();
+    let peer_id = PeerId::try_from_bytes(hs.peer_cid).expect("peer connection id of 0..=20 bytes");
+    let peer_id_registry = if Config::ENDPOINT_TYPE.is_client() {
+        mapper.create_client_peer_id_registry(internal_id, true)
+    } else {
+        mapper.create_server_peer_id_registry(internal_id, peer_id, true)
+    };
+    let mut local_id_registry = mapper.create_local_id_registry(
+        internal_id,
+        &connection::LocalId::TEST_ID,
+        None,
+        stateless_reset::token::testing::TEST_TOKEN_1,
+        true,
+    );
+    let limits_default = Limits::default();
+    let first_path = path::Path::<Config>::new(
+        Default::default(),
+        peer_id,
+        connection::LocalId::TEST_ID,
+        RttEstimator::new(Duration::from_millis(30)),
+        congestion_controller,
+        true,
+        mtu::Config::default(),
+        limits_default.anti_amplification_multiplier(),
+        0,
+    );
+    let mut path_manager = path::Manager::<Config>::new(first_path, peer_id_registry);
+
+    let initial_cid =
+        InitialId::try_from_bytes(hs.initial_cid).expect("original destination id of 8..=20 bytes");
+    let retry_cid = hs
+        .retry_cid
+        .map(|cid| PeerId::try_from_bytes(cid).expect("retry source id of 0..=20 bytes"));
+    let waker = core::task::Waker::noop().clone();
+    let mut publisher = Publisher::no_snapshot();
+    let mut limits = Limits::default();
+    let mut limits_endpoint = Limits::default();
+    let mut datagram = s2n_quic_core::datagram::Disabled::default();
+    let mut dc = s2n_quic_core::dc::Disabled::default();
+
+    let mut initial = None;
+    let mut handshake = None;
+    let mut application = None;
+    let mut zero_rtt_crypto = None;
+    let mut handshake_status = HandshakeStatus::default();
+    let mut server_name = None;
+    let mut application_protocol = Bytes::new();
+    let mut tls_context = None;
+
+    let mut context: SessionContext<Config, Publisher> = SessionContext {
+        now: s2n_quic_core::time::testing::now(),
+        initial_cid: &initial_cid,
+        retry_cid: retry_cid.as_ref(),
+        path_manager: &mut path_manager,
+        initial: &mut initial,
+        handshake: &mut handshake,
+        application: &mut application,
+        zero_rtt_crypto: &mut zero_rtt_crypto,
+        handshake_status: &mut handshake_status,
+        local_id_registry: &mut local_id_registry,
+        limits: &mut limits,
+        server_name: &mut server_name,
+        application_protocol: &mut application_protocol,
+        waker: &waker,
+        publisher: &mut publisher,
+        datagram: &mut datagram,
+        dc: &mut dc,
+        limits_endpoint: &mut limits_endpoint,
+        tls_context: &mut tls_context,
+        random_generator: &mut random_generator,
+    };
+
+    let result = tls::Context::on_one_rtt_keys(
+        &mut context,
+        Key::default(),
+        HeaderKey::default(),
+        ApplicationParameters {
+            transport_parameters: params,
+        },
+    );
+
+    // the application space exists exactly when the parameters were accepted
+    assert_eq!(result.is_ok(), application.is_some());
+    result
+}
+
+/// Runs the endpoint's handling of the peer's transport parameters.
+/// `client_endpoint`: the local endpoint is a client (the block was sent by a server).
+/// Returns `Ok(())` or the transport error code.
+pub fn authenticate(client_endpoint: bool, hs: &Handshake, params: &[u8]) -> Result<(), u64> {
+    let result = if client_endpoint {
+        drive::<SessionClient>(hs, params, Default::default())
+    } else {
+        drive::<SessionServer>(hs, params, Default::default())
+    };
+    result.map_err(|e| e.code.as_u64())
+}
